@@ -331,4 +331,10 @@ def run(facts, rep, tier, ctx):
                 rep.ob(("A/" if w3.asyncw else "") + "R19.3r", D.owner_id(cb3), "no Result is dropped on the way of a physical setter", not bad3,
                        "" if not bad3 else "%s: the setter reports success although the time stamp was not stored" % bad3[0][0],
                        bad3[0][1] if bad3 else cb3.span)
+    # R19.7 only the documented stamp of open_file touches `accessed` on the read side: the read handle keeps no reference to the
+    # filesystem's shared state, so nothing it does later (a first read) can replace a time that was set in between — C14 R14.7
+    from ..handlerules import Handles as _H19
+    for aw19 in (False, True):
+        if World(facts, aw19).present():
+            _H19(facts, aw19, D).handle_surface_rules(rep, ("A/" if aw19 else "") + "R19.7/R14.7")
     rep.assume("the OS stores the value passed to utimensat exactly (precision/range are runtime quantities)")
